@@ -68,7 +68,8 @@ def add_scen(trough, ncomp_new, shared):
         tot = z3.RealVal(0)
         for _, f in newc.items:
             tot = tot + f.t
-        ex.p.assume(tot == 1)
+        if ncomp_new:  # a liquid without any tracked component ({}: e.g. system liquid) still dilutes what is in the well
+            ex.p.assume(tot == 1)
         from pyvc.values import SeqV
 
         return {"self": lw, "wells": WellV(r, c), "volumes": sreal("v"), "label": None, "compositions": SeqV.of("list", [newc])}
@@ -83,7 +84,7 @@ def install(world):  # noqa: F811
     _inst_c05(world)
     register(world, Contract(
         func=L + "add", serves=["C05"], key=L + "add#composition",
-        scenarios=[add_scen(False, 1, False), add_scen(False, 1, True), add_scen(True, 2, True), add_scen(False, 2, False)],
+        scenarios=[add_scen(False, 1, False), add_scen(False, 1, True), add_scen(True, 2, True), add_scen(False, 2, False), add_scen(False, 0, False)],
         raises=[("AssertionError", None), ("KeyError", None), ("VolumeOverflowError", None)],
         ensures=[
             ("mixed-at-the-well", "composition_after_add_ok(self, old_self, wells, volumes, compositions[0])", ["C05"]),
@@ -104,3 +105,48 @@ def _well(ex):
     r, c = z3.Int("w_r"), z3.Int("w_c")
     ex.p.assume(z3.And(r >= 0, r < 26, c >= 1))
     return WellV(r, c)
+
+
+# ----------------------------------------------------------------------------- get_initial_composition
+
+GIC = "robotools.liquidhandling.composition.get_initial_composition"
+WELL_IDS = {(0, 0): "A01", (1, 0): "B01", (0, 1): "A02", (1, 1): "B02"}
+
+
+def gic_scen(rows, cols, names):
+    """names: {well-id: 'str' | None}  (well ids outside the grid make the call invalid)"""
+    def make(ex):
+        from pyvc.values import Arr2V
+
+        vols = {(r, c): sreal(f"iv_{r}_{c}") for r in range(rows) for c in range(cols)}
+        for v in vols.values():
+            ex.p.assume(v.t >= 0)
+        items = []
+        for i, (w, kind) in enumerate(names.items()):
+            r, c = "ABCDEFGH".index(w[0]), int(w[1:])
+            items.append((WellV(r, c), None if kind is None else sstr(f"given_{w}")))
+        return {"name": sstr("name"), "real_wells": Arr2V(rows, cols, lambda r, c: WellV(r, c + 1)),
+                "component_names": MapV(items=items), "initial_volumes": Arr2V(rows, cols, lambda r, c: vols[(r, c)], "float")}
+    return Scenario(f"{rows}x{cols} wells, component_names={names}", make)
+
+
+def install_gic(world):
+    register(world, Contract(
+        func=GIC, serves=["C05", "C20"],
+        scenarios=[gic_scen(1, 1, {}), gic_scen(1, 1, {"A01": None}), gic_scen(1, 1, {"A01": "str"}), gic_scen(1, 1, {"B01": "str"}),
+                   gic_scen(2, 1, {}), gic_scen(2, 1, {"A01": "str"}), gic_scen(2, 1, {"A01": "str", "B01": "str"}), gic_scen(2, 1, {"A01": None, "B01": "str"}),
+                   gic_scen(1, 2, {}), gic_scen(1, 2, {"A01": "str", "A02": "str"}), gic_scen(1, 2, {"A02": "str", "A03": None}),
+                   gic_scen(2, 2, {}), gic_scen(2, 2, {"A01": "str", "B02": "str"}), gic_scen(3, 1, {"B01": "str"})],
+        raises=[("ValueError", "gic_rejects(real_wells, component_names, initial_volumes)")],
+        ensures=[("one-100%-component-per-filled-well", "gic_ok(result, name, real_wells, component_names, initial_volumes)", ["C05", "C20"])],
+        native={"imports": ["from robotools.liquidhandling.composition import get_initial_composition"],
+                "call": "get_initial_composition(name, real_wells, component_names, initial_volumes)"},
+    ))
+
+
+_install_c05 = install
+
+
+def install(world):  # noqa: F811
+    _install_c05(world)
+    install_gic(world)
